@@ -104,6 +104,13 @@ def cases(rng, tier, shard, nshards):
             yield dict(family=fam, tree=tree, singularity=sing, z0=z0, n=int(rng.integers(1, 14)), inner_n=int(rng.integers(1, 14)),
                        nested=True, r=None)
             continue
+        if not default_r and rng.random() < 0.2:
+            # an initial radius already close to where the search settles, with the shortest extrapolation: the search ends after
+            # the minimum number of circles (few rows reach the final selection)
+            yield dict(family=fam, tree=tree, singularity=sing, z0=z0, n=int(rng.integers(1, 14)),
+                       r=float(10.0 ** rng.uniform(-0.7, 0.1)), step_ratio=float(np.round(rng.uniform(1.2, 3.0), 2)),
+                       num_extrap=int(rng.choice([1, 1, 2])), via=str(rng.choice(['taylor', 'derivative', 'Taylor'])))
+            continue
         yield dict(family=fam, tree=tree, singularity=sing, z0=z0, n=n,
                    r=None if default_r else float(10.0 ** rng.uniform(-5, 0)),
                    step_ratio=None if default_r else float(np.round(rng.uniform(1.2, 3.0), 2)),
